@@ -249,9 +249,64 @@ def case_plateau(case):
     return out, ("plateau", bool(fp.get("success")))
 
 
+def case_scan(case):
+    """compute_emodulus_mindelta / fits with changing sample counts on one
+    object: the scan arrays always have the *currently* requested number
+    of samples on a monotonic depth grid"""
+    out = []
+    idnt, mk = make(case["curve"])
+    idnt.apply_preprocessing(["compute_tip_position"])
+    x0 = np.asarray(idnt["tip position"], dtype=float)
+    idnt["tip position"] = x0 - CP
+    n = 0
+    for step, (how, ns) in enumerate(case["sequence"]):
+        sub = dict(case, upto=step)
+        try:
+            if how == "set":
+                idnt.fit_properties["optimal_fit_num_samples"] = ns
+            elif how == "fit":
+                idnt.fit_model(model_key=mk, weight_cp=0,
+                               optimal_fit_num_samples=ns)
+            elif how == "fit-plateau":
+                idnt.fit_model(model_key=mk, weight_cp=0,
+                               optimal_fit_edelta=True,
+                               optimal_fit_num_samples=ns)
+            elif how == "plateau-off":
+                idnt.fit_model(model_key=mk, optimal_fit_edelta=False)
+            e, d = idnt.compute_emodulus_mindelta()
+        except BaseException as ex:
+            if isinstance(ex, (KeyboardInterrupt, SystemExit, MemoryError)):
+                raise
+            out.append(V(PROP, "fit-raises", site="scan-sequence",
+                         witness=f"step{step}:{how}", detail=repr(ex),
+                         case=sub, kind="scan"))
+            break
+        n += 1
+        want = idnt.fit_properties.get("optimal_fit_num_samples", 100)
+        dd = np.diff(np.asarray(d))
+        if len(e) != want or len(d) != want:
+            out.append(V(PROP, "plateau-count", site="scan-sequence",
+                         witness=f"step{step}:{how}", detail=f"{want} "
+                         f"samples requested, scan arrays have {len(e)} / "
+                         f"{len(d)} entries after {case['sequence'][:step+1]}",
+                         case=sub, kind="scan"))
+        elif not (np.all(dd > 0) or np.all(dd < 0)):
+            out.append(V(PROP, "plateau-grid", site="scan-sequence",
+                         witness=f"step{step}:{how}", detail="depth grid "
+                         "not strictly monotonic", case=sub, kind="scan"))
+    return out, ("scan", n > 0)
+
+
 def cases(tier):
     cs = []
     ks = [1.0, 0.5]
+    import itertools as _it
+    hows = [("set", 7), ("set", 12), ("fit", 9), ("fit-plateau", 8),
+            ("plateau-off", None), ("fit", 7)]
+    for curve in ("para", "cone"):
+        for seq in _it.permutations(hows, 3):
+            cs.append({"kind": "scan", "curve": curve,
+                       "sequence": [list(s) for s in seq]})
     for curve in CURVES:
         for seg in (0, 1):
             for k in ks:
@@ -279,8 +334,8 @@ def cases(tier):
 
 
 def case_fn(case):
-    return {"abs": case_abs, "rel": case_rel,
-            "plateau": case_plateau}[case["kind"]](case)
+    return {"abs": case_abs, "rel": case_rel, "plateau": case_plateau,
+            "scan": case_scan}[case["kind"]](case)
 
 
 def replay(doc):
@@ -304,7 +359,7 @@ def run(tier):
         cl.items(), key=str)})
     rep.set("distinct_nontrivial", sum(
         v for k, v in cl.items()
-        if k[0] in ("abs", "rel", "plateau") and k[1]))
+        if k[0] in ("abs", "rel", "plateau", "scan") and k[1]))
     rep.set("rule", "all ordered pairs of 12 boundary candidates per curve "
             "and segment (on samples, between samples, 1-ulp neighbours, "
             "segment ends, +-inf) for absolute ranges; 7 relative "
